@@ -24,18 +24,34 @@ val add : nat -> nat -> nat
 
 val sub : nat -> nat -> nat
 
+val gmax : ('a1 -> 'a1 -> comparison) -> 'a1 -> 'a1 -> 'a1
+
+val gmin : ('a1 -> 'a1 -> comparison) -> 'a1 -> 'a1 -> 'a1
+
 module Nat :
  sig
+  val sub : nat -> nat -> nat
+
   val eqb : nat -> nat -> bool
 
   val leb : nat -> nat -> bool
 
   val ltb : nat -> nat -> bool
+
+  val max : nat -> nat -> nat
+
+  val divmod : nat -> nat -> nat -> nat -> nat * nat
+
+  val div : nat -> nat -> nat
+
+  val modulo : nat -> nat -> nat
  end
 
 val nth : nat -> 'a1 list -> 'a1 -> 'a1
 
 val nth_error : 'a1 list -> nat -> 'a1 option
+
+val concat : 'a1 list list -> 'a1 list
 
 val map : ('a1 -> 'a2) -> 'a1 list -> 'a2 list
 
@@ -51,6 +67,8 @@ val combine : 'a1 list -> 'a2 list -> ('a1 * 'a2) list
 
 val firstn : nat -> 'a1 list -> 'a1 list
 
+val skipn : nat -> 'a1 list -> 'a1 list
+
 val repeat : 'a1 -> nat -> 'a1 list
 
 type positive =
@@ -65,6 +83,14 @@ type z =
 
 module Pos :
  sig
+  type mask =
+  | IsNul
+  | IsPos of positive
+  | IsNeg
+ end
+
+module Coq_Pos :
+ sig
   val succ : positive -> positive
 
   val add : positive -> positive -> positive
@@ -73,11 +99,34 @@ module Pos :
 
   val pred_double : positive -> positive
 
+  type mask = Pos.mask =
+  | IsNul
+  | IsPos of positive
+  | IsNeg
+
+  val succ_double_mask : mask -> mask
+
+  val double_mask : mask -> mask
+
+  val double_pred_mask : positive -> mask
+
+  val sub_mask : positive -> positive -> mask
+
+  val sub_mask_carry : positive -> positive -> mask
+
+  val sub : positive -> positive -> positive
+
   val mul : positive -> positive -> positive
+
+  val size_nat : positive -> nat
 
   val compare_cont : comparison -> positive -> positive -> comparison
 
   val compare : positive -> positive -> comparison
+
+  val ggcdn : nat -> positive -> positive -> positive * (positive * positive)
+
+  val ggcd : positive -> positive -> positive * (positive * positive)
 
   val iter_op : ('a1 -> 'a1 -> 'a1) -> positive -> 'a1 -> 'a1
 
@@ -100,16 +149,62 @@ module Z :
 
   val opp : z -> z
 
+  val sub : z -> z -> z
+
   val mul : z -> z -> z
 
   val compare : z -> z -> comparison
 
+  val sgn : z -> z
+
+  val leb : z -> z -> bool
+
   val ltb : z -> z -> bool
+
+  val max : z -> z -> z
+
+  val min : z -> z -> z
+
+  val abs : z -> z
 
   val to_nat : z -> nat
 
   val of_nat : nat -> z
+
+  val to_pos : z -> positive
+
+  val pos_div_eucl : positive -> z -> z * z
+
+  val div_eucl : z -> z -> z * z
+
+  val div : z -> z -> z
+
+  val modulo : z -> z -> z
+
+  val ggcd : z -> z -> z * (z * z)
  end
+
+type q = { qnum : z; qden : positive }
+
+val inject_Z : z -> q
+
+val qcompare : q -> q -> comparison
+
+val qle_bool : q -> q -> bool
+
+val qplus : q -> q -> q
+
+val qmult : q -> q -> q
+
+val qopp : q -> q
+
+val qminus : q -> q -> q
+
+val qinv : q -> q
+
+val qdiv : q -> q -> q
+
+val qred : q -> q
 
 type sx =
 | SZ of z
@@ -127,6 +222,10 @@ val opt_all : 'a1 option list -> 'a1 list option
 
 val dlist : (sx -> 'a1 option) -> sx -> 'a1 list option
 
+val dq : sx -> q option
+
+val dopt : (sx -> 'a1 option) -> sx -> 'a1 option option
+
 val ez : z -> sx
 
 val enat : nat -> sx
@@ -135,7 +234,95 @@ val ebool : bool -> sx
 
 val elist : ('a1 -> sx) -> 'a1 list -> sx
 
+val eq_ : q -> sx
+
 val eopt : ('a1 -> sx) -> 'a1 option -> sx
+
+val prodZ : z list -> z
+
+val ravelZ : z list -> z list -> z
+
+val unravelZ : z list -> z -> z list
+
+val qfloor : q -> z
+
+val qceiling : q -> z
+
+val qmax : q -> q -> q
+
+val qmin : q -> q -> q
+
+val qtrunc : q -> z
+
+val clipZ : z -> z -> z -> z
+
+val clipQ : q -> q -> q -> q
+
+val grid_raw : z -> q -> q -> q -> q -> q
+
+val grid_idx1 : z -> q -> q -> q -> q -> z
+
+val int32_min : z
+
+val int32_max : z
+
+val cast_int32 : q -> z
+
+val grid_idx1_int32_first : z -> q -> q -> q -> q -> z
+
+type gdim = { gd : z; glo : q; ghi : q }
+
+val grid_cells :
+  (z -> q -> q -> q -> q -> z) -> q -> gdim list -> q list -> z list
+
+val grid_dims : gdim list -> z list
+
+val grid_to_int_index : gdim list -> z list -> z
+
+val grid_index_of_one : q -> gdim list -> q list -> z
+
+val grid_index_of : q -> gdim list -> q list list -> z list
+
+val grid_index_of_single : q -> gdim list -> q list -> z
+
+val grid_index_of_one_int32_first : q -> gdim list -> q list -> z
+
+val dist2 : q list -> q list -> q
+
+val argmin_pair : q list -> (nat * q) option
+
+val argmin_first : q list -> nat
+
+val cvt_index_one : q list list -> q list -> nat
+
+val cvt_index_of : q list list -> q list list -> nat list
+
+val split_sizes : 'a1 list -> nat list -> 'a1 list list
+
+val array_split : 'a1 list -> nat -> 'a1 list list
+
+val ceil_div : nat -> nat -> nat
+
+val cvt_index_of_chunked :
+  q list list -> nat option -> q list list -> nat list
+
+val searchsorted_left : q list -> q -> nat
+
+val sb_idx1_x : nat -> q list -> q -> q -> q -> nat
+
+type sdim = { sd : nat; sbnd : q list; slo : q; shi_e : q }
+
+val sb_cells : sdim list -> q list -> nat list
+
+val sb_dims : sdim list -> z list
+
+val sb_index_of_one : sdim list -> q list -> z
+
+val dgdim : sx -> gdim option
+
+val dsdim : sx -> sdim option
+
+val run_C03 : sx -> sx
 
 val upd : 'a1 list -> nat -> 'a1 -> 'a1 list
 
